@@ -212,6 +212,7 @@ type fctx struct {
 	preParamAlloc *Term // allocation frontier before the parameters were bound (boxed parameters live above it)
 	inPeel        int
 	litDone       map[*ast.FuncLit]bool
+	hookRecv      *Value        // receiver of the call whose precall hooks are running (bound as `recv`)
 	localAddr     map[int]bool  // addresses of boxed local variables (by term id)
 	exitExempt    map[int]*Term // object address (term id) -> condition under which its invariant may be violated at this return
 	madeSlices    map[int]bool  // base addresses of slices allocated with make() in this frame (by term id)
